@@ -240,3 +240,9 @@ def make_toml(**kw):
              reg_ts="", group_by="date", exports="", eqa="Equity:Balance", eq_acc="")
     d.update(kw)
     return BASE_TOML % d
+
+
+def scale_for(text):
+    """a report scale (min, max) derived from the case text: the structured figures of every
+    report must not depend on this display setting"""
+    return [(0, 28), (2, 7), (2, 2), (0, 0), (0, 3)][sum(map(ord, text)) % 5]
